@@ -117,3 +117,53 @@ Definition arb_hmac (u : U) : ares val :=
   let '(pp, u5) := if b then (let '(v, u') := arb_u32 u4 in (VSome (VZ v), u')) else (VNone, u4) in
   AOk (VRec [("key_agreement", VRec [("x", VBytes (fst k)); ("y", VBytes (snd k))]);
              ("salt_enc", VBytes se); ("salt_auth", VBytes sa); ("pin_protocol", pp)]) u5))).
+
+(* ---- Unstructured::arbitrary_byte_size / arbitrary_len::<u8>: the length is taken from the END of the
+   input (one byte when at most 256 bytes remain, two bytes up to 65537) *)
+Definition arb_byte_size (u : U) : Z * U :=
+  let n := blen u in
+  if n =? 0 then (0, u)
+  else if n =? 1 then (0, [])
+  else if n <=? 256 then
+    let m := n - 1 in
+    let rest := firstn (Z.to_nat m) u in
+    let b := nth (Z.to_nat m) u 0 in
+    ((if m =? 255 then b else b mod (m + 1)), rest)
+  else
+    let m := n - 2 in
+    let rest := firstn (Z.to_nat m) u in
+    let b0 := nth (Z.to_nat m) u 0 in
+    let b1 := nth (Z.to_nat (m + 1)) u 0 in
+    let v := if 256 <=? m then b0 * 256 + b1 else b0 in
+    ((if m =? 65535 then v else v mod (m + 1)), rest).
+
+(* <&[u8] as Arbitrary>::arbitrary *)
+Definition arb_slice (u : U) : ares bytes :=
+  let '(len, u1) := arb_byte_size u in u_bytes len u1.
+
+(* <&str as Arbitrary>::arbitrary *)
+Definition arb_strref (u : U) : ares bytes :=
+  let '(size, u1) := arb_byte_size u in
+  match u_peek size u1 with
+  | None => APanic "peek_bytes(size).unwrap()"
+  | Some p =>
+      if utf8_valid p then u_bytes size u1
+      else abind (u_bytes (Z.of_nat (Utf8.valid_prefix_len p)) u1) (fun s u2 =>
+             if negb (utf8_valid s) then APanic "from_utf8_unchecked on ill-formed bytes" else AOk s u2)
+  end.
+
+(* webauthn::PublicKeyCredentialDescriptorRef *)
+Definition arb_descref (u : U) : ares val :=
+  abind (arb_slice u) (fun id u1 =>
+  abind (arb_strref u1) (fun kt u2 =>
+  AOk (VRec [("id", VBytes id); ("key_type", VStr kt)]) u2)).
+
+Definition arb_opt {A} (f : U -> ares A) (u : U) : ares (option A) := arbitrary_option f u.
+
+(* credential_management::SubcommandParameters *)
+Definition arb_subparams (u : U) : ares val :=
+  abind (arbitrary_option (arbitrary_byte_array 32) u) (fun h u1 =>
+  abind (arb_opt arb_descref u1) (fun c u2 =>
+  abind (arb_opt arb_user u2) (fun us u3 =>
+  AOk (VRec [("rp_id_hash", match h with Some b => VSome (VBytes b) | None => VNone end);
+             ("credential_id", vopt c); ("user", vopt us)]) u3))).
